@@ -1,16 +1,21 @@
-(** CorrIdentifyGen.v — entry points for a correspondence harness: the functions GENERATED from
-    cai_causal_graph/identify_utils.py (IdentifyGen.v) evaluated on a DAG over the vertices
-    [0 .. n-1] given by its arc list (DEFINITIONS ONLY, plus a few pinned examples).
+(** CorrIdentifyGen.v — what the entry points of the correspondence harness for the functions
+    GENERATED from cai_causal_graph/identify_utils.py have in common (DEFINITIONS ONLY).  This file
+    does NOT depend on any generated file; the entry points are in
+      CorrIdentifyGenConf.v  (identify_confounders;                         IdentifyGenConf.v)
+      CorrIdentifyGenIM.v    (identify_instruments, identify_mediators;     IdentifyGenIM.v)
+      CorrIdentifyGenMB.v    (identify_markov_boundary, identify_colliders; IdentifyGenMB.v)
+    each of which depends only on its own generated file (and on what that file imports).
 
-    - the graph is [{| verts := seq 0 n; arcs := arcs |}] (nodes added in the order 0 .. n-1, then
-      the edges in the order of the list);
+    - a DAG over the vertices [0 .. n-1] is given by its arc list: the graph is
+      [{| verts := seq 0 n; arcs := arcs |}] (nodes added in the order 0 .. n-1, then the edges in
+      the order of the list);
     - [None] is the number [n] and the empty string the number [n + 1] (neither is a vertex);
-    - the recursion fuel is [n + 1] (IdentifyGenProofs.v proves that it suffices on a DAG);
+    - the recursion fuel is [n + 1] (IdentifyGenConfProofs.v proves that it suffices on a DAG);
     - sets are iterated in list order ([pyorder_id]); the [cigo_] variants take the iteration
-      order as a parameter (IdentifyGenProofs.v proves that the result sets do not depend on it);
+      order as a parameter (the proofs show that the result sets do not depend on it);
     - a result is [Ret l] with [l] SORTED (Python returns [list(set)], whose order is hash
       dependent), [Exc e] when the Python function raises [e], [Fuel] never on a DAG. *)
-From CG Require Import Base Digraph Identify Markov PyRt IdentifyGen.
+From CG Require Import Base Digraph Markov PyRt.
 Set Implicit Arguments.
 
 Definition cig_graph (n : nat) (arcs : list (nat * nat)) : digraph nat :=
@@ -26,51 +31,6 @@ Definition cig_sorted (o : pyout (list nat)) : pyout (list nat) :=
   | Fuel => Fuel
   end.
 
-(** [identify_confounders(graph, x, y)] *)
-Definition cigo_confounders (ord : pyorder) (n : nat) (arcs : list (nat * nat)) (x y : nat)
-  : pyout (list nat) :=
-  cig_sorted (gen_identify_confounders Nat.eqb (cig_none n) (cig_empty_str n) ord (cig_fuel n)
-                (cig_graph n arcs) x y).
-Definition cig_confounders := cigo_confounders pyorder_id.
-
-(** [identify_instruments(graph, x, y, max_num_paths)] *)
-Definition cigo_instruments_max (ord : pyorder) (n : nat) (arcs : list (nat * nat))
-           (x y max_num_paths : nat) : pyout (list nat) :=
-  cig_sorted (gen_identify_instruments Nat.eqb (cig_none n) (cig_empty_str n) ord (cig_fuel n)
-                (cig_graph n arcs) x y max_num_paths).
-Definition cig_instruments_max := cigo_instruments_max pyorder_id.
-
-(** [identify_mediators(graph, x, y, max_num_paths)] *)
-Definition cigo_mediators_max (ord : pyorder) (n : nat) (arcs : list (nat * nat))
-           (x y max_num_paths : nat) : pyout (list nat) :=
-  cig_sorted (gen_identify_mediators Nat.eqb (cig_none n) (cig_empty_str n) ord (cig_fuel n)
-                (cig_graph n arcs) x y max_num_paths).
-Definition cig_mediators_max := cigo_mediators_max pyorder_id.
-
-(** with the default [max_num_paths = 25] *)
-Definition cig_instruments (n : nat) (arcs : list (nat * nat)) (x y : nat) : pyout (list nat) :=
-  cig_instruments_max n arcs x y 25.
-Definition cig_mediators (n : nat) (arcs : list (nat * nat)) (x y : nat) : pyout (list nat) :=
-  cig_mediators_max n arcs x y 25.
-
-(** [identify_markov_boundary(graph, x)] *)
-Definition cigo_markov_boundary (ord : pyorder) (n : nat) (arcs : list (nat * nat)) (x : nat)
-  : pyout (list nat) :=
-  cig_sorted (gen_identify_markov_boundary Nat.eqb (cig_none n) (cig_empty_str n) ord (cig_graph n arcs) x).
-Definition cig_markov_boundary := cigo_markov_boundary pyorder_id.
-
-(** [identify_colliders(graph, unshielded_only)] on a graph with arbitrary edge types: the nodes
-    [0 .. n-1] and the edges [(source, destination, type)] in insertion order. *)
-Definition cigo_colliders (ord : pyorder) (n : nat) (edges : list (nat * nat * etype))
-           (unshielded_only : bool) : pyout (list nat) :=
-  cig_sorted (gen_identify_colliders Nat.eqb ord {| mnodes := seq 0 n; medges := edges |} unshielded_only).
-Definition cig_colliders := cigo_colliders pyorder_id.
-
-(** The three result sets of one call. *)
-Definition cig_all (n : nat) (arcs : list (nat * nat)) (x y : nat)
-  : pyout (list nat) * pyout (list nat) * pyout (list nat) :=
-  (cig_confounders n arcs x y, cig_instruments n arcs x y, cig_mediators n arcs x y).
-
 (** Token form for a harness that compares numbers: [0 :: sorted result] for a normal return,
     [[1; k]] for an exception ([k] = 0 TypeError, 1 ValueError, 2 KeyError,
     3 NodeDoesNotExistError, 4 EdgeDoesNotExistError, 5 NetworkXError), [[2]] for fuel. *)
@@ -85,65 +45,27 @@ Definition cig_tokens (o : pyout (list nat)) : list nat :=
   | Exc e => [1; cig_exc_code e]
   | Fuel => [2]
   end.
-Definition cig_all_tokens (n : nat) (arcs : list (nat * nat)) (x y : nat) : list (list nat) :=
-  let '(c, i, m) := cig_all n arcs x y in [cig_tokens c; cig_tokens i; cig_tokens m].
-
-(** * Pinned examples (every right-hand side was obtained from the real library) *)
-
-(** docstring of [identify_confounders]: z=0 u=1 x=2 y=3 *)
-Example cig_ex_conf : cig_confounders 4 [(0, 1); (1, 2); (1, 3); (2, 3)] 2 3 = Ret [1].
-Proof. vm_compute. reflexivity. Qed.
-(** docstring of [identify_instruments]: z=0 u=1 x=2 y=3 *)
-Example cig_ex_inst : cig_instruments 4 [(0, 2); (1, 2); (1, 3); (2, 3)] 2 3 = Ret [0].
-Proof. vm_compute. reflexivity. Qed.
-(** docstring of [identify_mediators]: x=0 m=1 y=2 u=3 *)
-Example cig_ex_med : cig_mediators 4 [(0, 1); (1, 2); (3, 0); (3, 2); (0, 2)] 0 2 = Ret [1].
-Proof. vm_compute. reflexivity. Qed.
-(** equal nodes: ValueError; unknown node: NodeDoesNotExistError *)
-Example cig_ex_errors :
-  cig_confounders 2 [(0, 1)] 1 1 = Exc PyValueError /\
-  cig_confounders 2 [(0, 1)] 0 5 = Exc PyNodeDoesNotExistError /\
-  cig_mediators 2 [(0, 1)] 7 0 = Exc PyNodeDoesNotExistError.
-Proof. vm_compute. repeat split; reflexivity. Qed.
-(** x -> a -> y, x -> b -> y, x -> y: three causal paths; with max_num_paths = 1 the third one
-    (index 2 > 1) makes identify_mediators raise ValueError; with max_num_paths = 2 it returns [] *)
-Example cig_ex_max_paths :
-  cig_mediators_max 4 [(0, 1); (1, 3); (0, 2); (2, 3); (0, 3)] 0 3 1 = Exc PyValueError /\
-  cig_mediators_max 4 [(0, 1); (1, 3); (0, 2); (2, 3); (0, 3)] 0 3 2 = Ret [].
-Proof. vm_compute. split; reflexivity. Qed.
-(** docstring of [identify_markov_boundary]: u v b c a d e w f x y g z = 0 .. 12 *)
-Example cig_ex_markov :
-  cig_markov_boundary 13 [(0, 2); (1, 3); (2, 4); (3, 4); (4, 5); (4, 6); (7, 8); (8, 5); (5, 9);
-                          (5, 10); (11, 6); (11, 12)] 4 = Ret [2; 3; 5; 6; 8; 11] /\
-  cig_markov_boundary 2 [(0, 1)] 5 = Exc PyNodeDoesNotExistError.
-Proof. vm_compute. split; reflexivity. Qed.
-(** a -> c <- b, c <> d, d -- e, a -> e (a b c d e = 0 .. 4): the real library returns ['c'] for
-    both settings of unshielded_only (a, b, d point into c and are pairwise non-adjacent; d has a
-    single arrowhead).  a -> c <- b with a -- b: c is a collider, but a shielded one. *)
-Example cig_ex_colliders :
-  cig_colliders 5 [(0, 2, Dir); (1, 2, Dir); (2, 3, Bi); (3, 4, Und); (0, 4, Dir)] false = Ret [2] /\
-  cig_colliders 5 [(0, 2, Dir); (1, 2, Dir); (2, 3, Bi); (3, 4, Und); (0, 4, Dir)] true = Ret [2] /\
-  cig_colliders 3 [(0, 2, Dir); (1, 2, Dir); (0, 1, Und)] false = Ret [2] /\
-  cig_colliders 3 [(0, 2, Dir); (1, 2, Dir); (0, 1, Und)] true = Ret [].
-Proof. vm_compute. repeat split; reflexivity. Qed.
-
-(** The other concrete iteration order (reversed at the odd observation sites) gives the same
-    sorted results on the examples above. *)
-Example cig_ex_other_order :
-  cigo_confounders pyorder_alt 4 [(0, 1); (1, 2); (1, 3); (2, 3)] 2 3 = Ret [1] /\
-  cigo_instruments_max pyorder_alt 4 [(0, 2); (1, 2); (1, 3); (2, 3)] 2 3 25 = Ret [0] /\
-  cigo_mediators_max pyorder_alt 4 [(0, 1); (1, 2); (3, 0); (3, 2); (0, 2)] 0 2 25 = Ret [1] /\
-  cigo_mediators_max pyorder_alt 4 [(0, 1); (1, 3); (0, 2); (2, 3); (0, 3)] 0 3 1 = Exc PyValueError /\
-  cigo_colliders pyorder_alt 5 [(0, 2, Dir); (1, 2, Dir); (2, 3, Bi); (3, 4, Und); (0, 4, Dir)] true = Ret [2].
-Proof. vm_compute. repeat split; reflexivity. Qed.
-
-(** * Regression cases
+(** comparison of outcomes *)
+Definition cig_exc_eqb (a b : pyexc) : bool := Nat.eqb (cig_exc_code a) (cig_exc_code b).
+Fixpoint cig_list_eqb (a b : list nat) : bool :=
+  match a, b with
+  | [], [] => true
+  | x :: a', y :: b' => Nat.eqb x y && cig_list_eqb a' b'
+  | _, _ => false
+  end.
+Definition cig_out_eqb (a b : pyout (list nat)) : bool :=
+  match a, b with
+  | Ret x, Ret y => cig_list_eqb x y
+  | Exc x, Exc y => cig_exc_eqb x y
+  | _, _ => false
+  end.
+(** * Regression cases (data only; they are checked in the three entry point files)
 
     Random DAGs / random graphs with arbitrary edge types; every expected value is what the real
     library returned (seeded generator, PYTHONHASHSEED=0).  A DAG case is
     [(n, arcs, x, y, max_num_paths, (confounders, instruments, mediators), markov_boundary of x)], a mixed
-    case is [(n, edges, colliders, unshielded colliders)].  Both iteration orders are checked.
-    (Several thousand more cases of the same kind were checked in scratch files; see the report.) *)
+    case is [(n, edges, colliders, unshielded colliders)].
+    (Several thousand more cases of the same kind were checked in scratch files.) *)
 Definition cig_regression_dags :
   list (nat * list (nat * nat) * nat * nat * nat * (pyout (list nat) * pyout (list nat) * pyout (list nat)) * pyout (list nat)) :=
   [(7, [(5, 6); (0, 3); (4, 6); (0, 4); (0, 6); (4, 1); (1, 2); (3, 4); (3, 6); (0, 2); (0, 1); (1, 6)], 2, 1, 25, (Ret [0], Ret [], Ret []), Ret [0; 1]);
@@ -199,38 +121,3 @@ Definition cig_regression_mixed : list (nat * list (nat * nat * etype) * pyout (
    (6, [(0, 4, UnkUnd); (4, 1, Dir); (2, 4, Dir); (1, 2, Bi); (3, 0, UnkDir); (5, 4, Bi); (1, 0, Dir); (1, 5, Unk); (3, 2, Bi); (3, 1, Bi)], Ret [1; 2; 3; 4], Ret [4]);
    (6, [(0, 1, Unk); (4, 0, Dir); (5, 0, Unk); (4, 2, Bi); (2, 1, Und); (3, 1, Und); (1, 4, Bi); (5, 3, Unk)], Ret [4], Ret []);
    (4, [(3, 0, Bi); (2, 0, UnkDir); (1, 3, Dir); (1, 0, Dir)], Ret [0; 3], Ret [])].
-
-Definition cig_exc_eqb (a b : pyexc) : bool := Nat.eqb (cig_exc_code a) (cig_exc_code b).
-Fixpoint cig_list_eqb (a b : list nat) : bool :=
-  match a, b with
-  | [], [] => true
-  | x :: a', y :: b' => Nat.eqb x y && cig_list_eqb a' b'
-  | _, _ => false
-  end.
-Definition cig_out_eqb (a b : pyout (list nat)) : bool :=
-  match a, b with
-  | Ret x, Ret y => cig_list_eqb x y
-  | Exc x, Exc y => cig_exc_eqb x y
-  | _, _ => false
-  end.
-
-Definition cig_check_dag (ord : pyorder)
-    (c : nat * list (nat * nat) * nat * nat * nat
-         * (pyout (list nat) * pyout (list nat) * pyout (list nat)) * pyout (list nat)) : bool :=
-  let '(n, arcs, x, y, mx, (ec, ei, em), emb) := c in
-  cig_out_eqb (cigo_confounders ord n arcs x y) ec
-  && cig_out_eqb (cigo_instruments_max ord n arcs x y mx) ei
-  && cig_out_eqb (cigo_mediators_max ord n arcs x y mx) em
-  && cig_out_eqb (cigo_markov_boundary ord n arcs x) emb.
-
-Definition cig_check_mixed (ord : pyorder)
-    (c : nat * list (nat * nat * etype) * pyout (list nat) * pyout (list nat)) : bool :=
-  let '(n, es, e1, e2) := c in
-  cig_out_eqb (cigo_colliders ord n es false) e1 && cig_out_eqb (cigo_colliders ord n es true) e2.
-
-Example cig_regression_ok :
-  forallb (cig_check_dag pyorder_id) cig_regression_dags = true /\
-  forallb (cig_check_dag pyorder_alt) cig_regression_dags = true /\
-  forallb (cig_check_mixed pyorder_id) cig_regression_mixed = true /\
-  forallb (cig_check_mixed pyorder_alt) cig_regression_mixed = true.
-Proof. vm_compute. repeat split; reflexivity. Qed.
